@@ -129,7 +129,14 @@ func unmarshalLoopSpec(c *Ctx, ord int, loop ast.Stmt) *LoopSpec {
 	return &LoopSpec{
 		InvFn: func(c *Ctx, st *State, _ string) string {
 			i, l := look(st, lhs.Name), look(st, "l")
-			return and(c.leIdx(c.ilit(0), i.T), c.leIdx(i.T, l.T))
+			inv := and(c.leIdx(c.ilit(0), i.T), c.leIdx(i.T, l.T))
+			// map entry loop with a message value: the value variable never holds nil (a missing value is an empty message)
+			if mv, ok := envByName(st, "mapvalue", fs.Pos()); ok {
+				if p, isPtr := mv.(PtrV); isPtr {
+					inv = and(inv, "(not (= "+p.Ref+" 0))")
+				}
+			}
+			return inv
 		},
 		DecFn: func(c *Ctx, before, after *State) string {
 			i0, i1, b0, b1 := look(before, lhs.Name), look(after, lhs.Name), look(before, rhs.Name), look(after, rhs.Name)
@@ -169,6 +176,12 @@ func unmarshalUnit(prog *Program, ms *MsgSchema, o unmarshalOpts) (u *Unit) {
 	xref := c.setupClosure(lit, st, ms)
 	x := PtrV{Ref: xref, Named: ms.Named}
 	c.loadStruct(st, x) // entry heap components exist before the snapshot
+	for _, f := range ms.Fields {
+		if f.Oneof != nil && f.Wrapper != nil {
+			// … and so do the wrapper fields of oneof members (read by the merge case of message members)
+			c.loadField(st, PtrV{Ref: c.freshRaw("anywrapper", "Int"), Named: f.Wrapper}, f.GoName)
+		}
+	}
 	c.loopSpecFor = unmarshalLoopSpec
 	var dec *decEngine
 	if o.functional {
